@@ -177,3 +177,32 @@ package stdlib
 //@   loop 1 invariant (and (wf_deep max) (isnum max) (not (is_marked max)))
 //@   loop 1 invariant (forall ((j Int)) (! (=> (and (trig j) (<= 0 j) (< j $i)) (not (bf_lt (bf_of max) (bf_of (val_at args j))))) :pattern ((trig j))))
 //@   loop 1 invariant (or (= max $G<cty.NegativeInfinity>) (exists ((j Int)) (! (and (trig j) (<= 0 j) (< j $i) (= max (val_at args j))) :pattern ((trig j)))))
+//
+// Functions whose return type is computed by a Type callback: the callback is under contract too, and
+// the Impl callback is verified for the return type that this Type callback answers (Function.Call
+// passes exactly that type on, C10).
+//@ func stdlib.HasIndexFunc.Type
+//@   tags C11
+//@   spec_args stdlib.HasIndexFunc
+//@   let t (vty (val_at args 0))
+//@   ensures[C11] ok: (= (= err nil.Any) (or (is_tuple_ty t) (is_list_ty t) (is_map_ty t) (is_dyn_ty t)))
+//@   ensures[C11] bool: (=> (= err nil.Any) (is_bool_ty ret))
+//
+//@ func stdlib.HasIndexFunc.Impl
+//@   tags C11 C13
+//@   spec_args stdlib.HasIndexFunc
+//@   let c (val_at args 0)
+//@   let k (val_at args 1)
+//@   let t (vty c)
+//@   requires (and (is_bool_ty retType) (or (is_tuple_ty t) (is_list_ty t) (is_map_ty t) (is_dyn_ty t)))
+//@   ensures[C11] ok: (and (= err nil.Any) (wf_deep ret) (is_bool_ty (vty ret)) (not (is_null ret)))
+//@   ensures[C13] list: (=> (and (is_list_ty t) (is_number_ty (vty k))) (bool_payload ret (seq_has c k)))
+//@   ensures[C13] map: (=> (and (is_map_ty t) (is_string_ty (vty k))) (bool_payload ret (map_has c k)))
+//@   ensures[C13] tuple: (=> (and (is_tuple_ty t) (is_number_ty (vty k))) (bool_payload ret (tup_has c k)))
+//
+//@ func stdlib.LengthFunc.Type
+//@   tags C11
+//@   spec_args stdlib.LengthFunc
+//@   let t (vty (val_at args 0))
+//@   ensures[C11] ok: (= (= err nil.Any) (or (is_tuple_ty t) (is_list_ty t) (is_map_ty t) (is_set_ty t) (is_dyn_ty t)))
+//@   ensures[C11] number: (=> (= err nil.Any) (is_number_ty ret))
